@@ -254,24 +254,32 @@ class OptimizerMixin:
 
         # Preserve optimizer state and param_group settings
         old_state = self._optimizer.state.copy()
+        old_params = [p for group in self._optimizer.param_groups for p in group["params"]]
         current_param_group = self._optimizer.param_groups[0].copy()
 
         # Reconnect to new parameters
         self._optimizer.param_groups.clear()
         self._optimizer.add_param_group({"params": optimizable_params})
 
-        # Update state mapping and move tensors to correct device
+        # Update state mapping and move tensors to correct device.  A state entry belongs to its
+        # parameter (same tensor, else the parameter at the same position of the previous param
+        # group), not to its rank among the entries: parameters that never received a gradient
+        # have no entry, so the i-th entry is not the state of the i-th parameter.
         new_state = {}
         device = optimizable_params[0].device
-        for i, old_param in enumerate(old_state.keys()):
-            if i < len(optimizable_params):
-                new_param = optimizable_params[i]
-                new_state[new_param] = {}
-                for key, value in old_state[old_param].items():
-                    if isinstance(value, torch.Tensor):
-                        new_state[new_param][key] = value.to(device)
-                    else:
-                        new_state[new_param][key] = value
+        for old_param, old_param_state in old_state.items():
+            idx = next((i for i, p in enumerate(optimizable_params) if p is old_param), None)
+            if idx is None:
+                idx = next((i for i, p in enumerate(old_params) if p is old_param), None)
+            if idx is None or idx >= len(optimizable_params):
+                continue
+            new_param = optimizable_params[idx]
+            new_state[new_param] = {}
+            for key, value in old_param_state.items():
+                if isinstance(value, torch.Tensor):
+                    new_state[new_param][key] = value.to(device)
+                else:
+                    new_state[new_param][key] = value
 
         self._optimizer.state.clear()
         self._optimizer.state.update(new_state)
